@@ -34,7 +34,7 @@ var kinds = []string{"status", "header", "headerCT", "cookie", "write", "json", 
 func mkOp(kind string, r *vh.Rand) op {
 	switch kind {
 	case "status":
-		return op{Kind: "status", C: vh.Pick(r, []int{201, 404, 500})}
+		return op{Kind: "status", C: vh.Pick(r, []int{201, 404, 500, 204, 304, 101})}
 	case "header":
 		return op{Kind: "header", A: vh.Pick(r, []string{"X-A", "X-B"}), B: vh.Pick(r, []string{"1", "2"})}
 	case "headerCT":
@@ -48,19 +48,22 @@ func mkOp(kind string, r *vh.Rand) op {
 	case "html":
 		return op{Kind: "html", A: vh.Pick(r, []string{"h", "<p>"})}
 	case "htmlS":
-		return op{Kind: "html", A: "h", C: vh.Pick(r, []int{404, 201})}
+		return op{Kind: "html", A: "h", C: vh.Pick(r, []int{404, 201, 204})}
 	case "redirect":
-		if r.Bool() {
+		switch r.Intn(3) {
+		case 0:
 			return op{Kind: "redirect", A: "/u"}
+		case 1:
+			return op{Kind: "redirect", A: "/v", C: 301}
 		}
-		return op{Kind: "redirect", A: "/v", C: 301}
+		return op{Kind: "redirect", A: "/v", C: 304}
 	case "nocontent":
 		if r.Bool() {
 			return op{Kind: "nocontent"}
 		}
-		return op{Kind: "nocontent", C: 205}
+		return op{Kind: "nocontent", C: vh.Pick(r, []int{205, 200, 304})}
 	case "writeheader":
-		return op{Kind: "writeheader", C: vh.Pick(r, []int{202, 500})}
+		return op{Kind: "writeheader", C: vh.Pick(r, []int{202, 500, 200, 204, 304, 101})}
 	}
 	panic("kind")
 }
@@ -240,14 +243,22 @@ func specOf(ops []op) (int, int, hdr, string) {
 	return 200, 0, h, body
 }
 
+// noBodyStatus: RFC 9110 — a 1xx, 204 or 304 response has no content (net/http refuses the body bytes).
+// Written here independently of the implementation and of the Lean model.
+func noBodyStatus(code int) bool { return (code >= 100 && code < 200) || code == 204 || code == 304 }
+
+// interimStatus: net/http sends a 1xx other than 101 as an interim response and does not commit; which
+// final status follows is outside the commit-once reference (see notes/C13.md), so the client stream
+// does not judge such a sequence. The recorder stream does (a recorder treats every code as final).
+func interimStatus(code int) bool { return code >= 100 && code < 200 && code != 101 }
+
 // judge decides what a difference between the recorder's view and the reference means. The property
 // speaks of the status, of every header SET BY THE SCRIPT before the commit, of the body and of the
 // number of commits; a header the implementation adds on its own is a difference from the model
 // (a correspondence mismatch), not a violation — unless it is a Content-Length that contradicts the
 // body the handler goes on to write: the connection then rejects the later writes and the client
 // does not receive the concatenation of all body writes.
-func judge(c *vh.Ctx, ops []op, rw *vh.CountingRW, pan any) {
-	cas := map[string]any{"kind": "resp", "ops": ops}
+func judge(c *vh.Ctx, cas map[string]any, ops []op, rw *vh.CountingRW, pan any) {
 	wSt, wCm, wH, wBody := specOf(ops)
 	want := canon(wSt, wCm, wH, wBody)
 	if pan != nil {
@@ -273,6 +284,14 @@ func judge(c *vh.Ctx, ops []op, rw *vh.CountingRW, pan any) {
 		bad("commits", "header commits on the underlying writer")
 		return
 	case rw.Body.String() != wBody:
+		if noBodyStatus(wSt) {
+			// the committed status cannot carry a body: no client receives these bytes whatever the
+			// recorder holds, so a writer that drops them itself is as good — a difference from the
+			// model, not a violation. (Whether a body reaches the client under a status that DOES allow
+			// one is judged above/below and by the client stream.)
+			c.Mismatch(cas, impl, want, fmt.Sprintf("recorder body differs under committed status %d, which carries no body", wSt))
+			return
+		}
 		bad("body", "body")
 		return
 	}
@@ -286,7 +305,7 @@ func judge(c *vh.Ctx, ops []op, rw *vh.CountingRW, pan any) {
 		if _, ok := wH[k]; ok {
 			continue
 		}
-		if k == "Content-Length" {
+		if k == "Content-Length" && !noBodyStatus(wSt) {
 			if n, err := strconv.Atoi(strings.Join(vs, ",")); err != nil || n != len(wBody) {
 				c.Violation("resp:content-length-contradicts-body", fmt.Sprintf("the committed header block declares Content-Length %s, the handler's body writes add up to %d bytes (%q): a connection rejects the writes past the declared length: got %q want %q", strings.Join(vs, ","), len(wBody), wBody, impl, want), cas)
 				return
@@ -299,9 +318,40 @@ func judge(c *vh.Ctx, ops []op, rw *vh.CountingRW, pan any) {
 
 // ------------------------------------------------------------ implementation side
 
-func serverScript(cases [][]op) string {
+// tcase: one handler run. At < 0: all operations in the route handler. At >= 0 (layer-split stream):
+// Ops[:At] run in a server middleware before it calls $next, Ops[At:] in the route handler — the same
+// operation sequence on the same response, spread over two layers of beginResponse/commitPending.
+type tcase struct {
+	Ops []op
+	At  int
+}
+
+func (t tcase) cas(kind string) map[string]any {
+	if t.At >= 0 {
+		return map[string]any{"kind": "split", "at": t.At, "ops": t.Ops}
+	}
+	return map[string]any{"kind": kind, "ops": t.Ops}
+}
+
+func plain(batch [][]op) []tcase {
+	out := make([]tcase, len(batch))
+	for i, ops := range batch {
+		out[i] = tcase{Ops: ops, At: -1}
+	}
+	return out
+}
+
+// serverScript: one route per case; `pre` (may be empty) runs in a middleware in front of every route.
+func serverScript(pre []op, cases [][]op) string {
 	var sb strings.Builder
 	sb.WriteString("<?php\nuse Net\\Http\\Server;\n$server = new Server('127.0.0.1', 0);\n")
+	if pre != nil {
+		sb.WriteString("$server->middleware(function ($req, $res, $next) {\n")
+		for _, o := range pre {
+			sb.WriteString("  " + o.script() + "\n")
+		}
+		sb.WriteString("  $next($req, $res);\n});\n")
+	}
 	for i, ops := range cases {
 		fmt.Fprintf(&sb, "$server->get('/c%d', function ($req, $res) {\n", i)
 		for _, o := range ops {
@@ -349,14 +399,43 @@ func runBatch(c *vh.Ctx, m *vh.Model, batch [][]op) {
 	if len(batch) == 0 {
 		return
 	}
-	env, o := vh.NewHTTPEnv(serverScript(batch))
+	every := 1
+	if len(batch) > 1 && c.Tier != "thorough" {
+		every = 2
+	}
+	runCases(c, m, nil, plain(batch), every)
+}
+
+// runSplit: the layer-split stream — `pre` in a middleware, each suffix in its own route handler.
+func runSplit(c *vh.Ctx, m *vh.Model, pre []op, suffixes [][]op) {
+	cases := make([]tcase, len(suffixes))
+	for i, sfx := range suffixes {
+		cases[i] = tcase{Ops: append(append([]op{}, pre...), sfx...), At: len(pre)}
+	}
+	runCases(c, m, pre, cases, 1)
+}
+
+// runCases serves every case in-process into a counting recorder (judged against the commit-once
+// reference and compared with Model.Resp.run), then over a real connection (every `every`-th case).
+func runCases(c *vh.Ctx, m *vh.Model, pre []op, cases []tcase, every int) {
+	if len(cases) == 0 {
+		return
+	}
+	handlers := make([][]op, len(cases))
+	for i, t := range cases {
+		handlers[i] = t.Ops
+		if t.At >= 0 {
+			handlers[i] = t.Ops[t.At:]
+		}
+	}
+	env, o := vh.NewHTTPEnv(serverScript(pre, handlers))
 	if o.Kind != "ok" || env.Mux == nil {
-		c.Mismatch(batch[0], o.String(), "", "server script did not run")
+		c.Mismatch(cases[0].cas("resp"), o.String(), "", "server script did not run")
 		return
 	}
 	var lines []string
-	for _, ops := range batch {
-		lines = append(lines, modelLine(ops))
+	for _, t := range cases {
+		lines = append(lines, modelLine(t.Ops))
 	}
 	var mres []string
 	if m != nil {
@@ -367,29 +446,59 @@ func runBatch(c *vh.Ctx, m *vh.Model, batch [][]op) {
 			mres = nil
 		}
 	}
-	for i, ops := range batch {
+	for i, t := range cases {
+		ops := t.Ops
 		rw, pan := env.Do("GET", fmt.Sprintf("/c%d", i))
 		impl := observe(rw)
 		if pan != nil {
 			impl = fmt.Sprintf("panic: %v", pan)
 		}
 		key := lines[i]
+		if t.At >= 0 {
+			key = fmt.Sprintf("split%d %s", t.At, key)
+			c.Hit("split:case")
+		}
 		c.Eval(key, nontrivial(ops))
 		c.HitN("len="+fmt.Sprint(len(ops)), 1)
 		for _, o := range ops {
 			c.Hit("op:" + o.Kind)
 		}
+		if st, _, _, _ := specOf(ops); noBodyStatus(st) {
+			c.Hit("committed:no-body-status")
+		}
+		if replacedNoBody(ops) {
+			c.Hit("replaced:no-body-status-before-commit")
+		}
 		c.SampleSome(map[string]any{"ops": lines[i], "impl": impl}, 997)
-		judge(c, ops, rw, pan)
+		judge(c, t.cas("resp"), ops, rw, pan)
 		if mres != nil && i < len(mres) && mres[i] != impl {
-			c.Mismatch(map[string]any{"kind": "resp", "ops": ops}, impl, mres[i], "bufferedWriter vs Model.Resp")
+			c.Mismatch(t.cas("resp"), impl, mres[i], "bufferedWriter vs Model.Resp")
 		}
 	}
-	every := 1
-	if len(batch) > 1 && c.Tier != "thorough" {
-		every = 2
+	runClient(c, m, env, cases, every)
+}
+
+// replacedNoBody: a status that carries no body is chosen and, before the commit, replaced by one
+// that does (the committed status allows a body) — and a body byte is written. Histogram only.
+func replacedNoBody(ops []op) bool {
+	st, _, _, body := specOf(ops)
+	if noBodyStatus(st) || body == "" {
+		return false
 	}
-	runClient(c, env, batch, every)
+	for _, o := range ops {
+		switch o.Kind {
+		case "write", "json", "html", "redirect", "nocontent", "writeheader":
+			if o.Kind == "html" && o.C != 0 && noBodyStatus(o.C) {
+				return true
+			}
+			return false // the commit
+		case "status":
+			if noBodyStatus(o.C) {
+				return true
+			}
+		}
+	}
+	return false
 }
 
 // ------------------------------------------------------------ client view (real connection)
@@ -398,19 +507,42 @@ func runBatch(c *vh.Ctx, m *vh.Model, batch [][]op) {
 // receives: the property's own words ("the client receives …"). A recorder accepts anything; a
 // connection enforces the committed header block (a declared Content-Length, a status that allows
 // no body), so a handler that breaks its own commit shows here as a truncated or missing response.
-func runClient(c *vh.Ctx, env *vh.HTTPEnv, batch [][]op, every int) {
+// The expected body is decided by the COMMITTED status alone (empty iff it carries no body): a status
+// chosen earlier and replaced before the commit has no say. The Lean model's connection view
+// (`conn` line, Model.Resp.runConn) is compared as well (status and body).
+func runClient(c *vh.Ctx, m *vh.Model, env *vh.HTTPEnv, cases []tcase, every int) {
 	srv := httptest.NewUnstartedServer(env.Mux)
 	srv.Config.ErrorLog = log.New(io.Discard, "", 0)
 	srv.Start()
 	defer srv.Close()
 	cl := &nethttp.Client{Timeout: 10 * time.Second, CheckRedirect: func(*nethttp.Request, []*nethttp.Request) error { return nethttp.ErrUseLastResponse }}
-	for i, ops := range batch {
-		if every > 1 && (i+len(ops))%every != 0 {
+	var idx []int
+	var lines []string
+	for i, t := range cases {
+		if every > 1 && (i+len(t.Ops))%every != 0 {
 			continue
 		}
-		cas := map[string]any{"kind": "client", "ops": ops}
+		if st, _, _, _ := specOf(t.Ops); interimStatus(st) {
+			c.Hit("client:skipped-interim-status")
+			continue
+		}
+		idx = append(idx, i)
+		lines = append(lines, "conn"+strings.TrimPrefix(modelLine(t.Ops), "resp"))
+	}
+	var mres []string
+	if m != nil && len(lines) > 0 {
+		var err error
+		mres, err = m.AskBatch(lines)
+		if err != nil {
+			c.Note("model failed: %v", err)
+			mres = nil
+		}
+	}
+	for j, i := range idx {
+		ops := cases[i].Ops
+		cas := cases[i].cas("client")
 		wSt, _, wH, wBody := specOf(ops)
-		if wSt == 204 || wSt == 304 {
+		if noBodyStatus(wSt) {
 			// a status that allows no body: the client can receive no body bytes, but it still
 			// receives the committed status and headers (later calls cannot alter them)
 			wBody = ""
@@ -423,21 +555,45 @@ func runClient(c *vh.Ctx, env *vh.HTTPEnv, batch [][]op, every int) {
 		}
 		body, rerr := io.ReadAll(resp.Body)
 		resp.Body.Close()
+		if mres != nil && j < len(mres) {
+			got := fmt.Sprintf("status=%d body=%s", resp.StatusCode, body)
+			if mv := statusBody(mres[j]); mv != got {
+				c.Mismatch(cas, got, mv, "client over a connection vs Model.Resp.runConn (status, body)")
+			}
+		}
 		switch {
 		case resp.StatusCode != wSt:
 			c.Violation("client:status", fmt.Sprintf("an HTTP client receives status %d, the reference gives %d", resp.StatusCode, wSt), cas)
 			continue
 		case string(body) != wBody || rerr != nil:
-			c.Violation("client:body", fmt.Sprintf("an HTTP client receives body %q (read error: %v), the concatenation of all body writes is %q", body, rerr, wBody), cas)
+			c.Violation("client:body", fmt.Sprintf("an HTTP client receives body %q (read error: %v) under the committed status %d, the concatenation of all body writes is %q", body, rerr, wSt, wBody), cas)
 			continue
 		}
 		for k, vs := range wH {
+			if wSt == 304 && k == "Content-Type" {
+				// net/http's own doing, not the writer's: a 304 goes out without representation
+				// metadata (server.go suppressedHeaders: Content-Type, Content-Length,
+				// Transfer-Encoding are deleted from the header block of a 304; RFC 9110 §15.4.5).
+				// The recorder stream still checks that the writer committed the header.
+				c.Hit("client:hdr-suppressed-by-net/http-for-304")
+				continue
+			}
 			if strings.Join(resp.Header.Values(k), ",") != strings.Join(vs, ",") {
 				c.Violation("client:hdr", fmt.Sprintf("an HTTP client receives header %s = %q, set before the commit: %q", k, resp.Header.Values(k), vs), cas)
 				break
 			}
 		}
 	}
+}
+
+// statusBody: "status=<n> body=<b>" out of a model answer "status=<n> commits=… hdr=… body=<b>".
+func statusBody(line string) string {
+	i := strings.Index(line, " commits=")
+	j := strings.LastIndex(line, " body=")
+	if !strings.HasPrefix(line, "status=") || i < 0 || j < 0 {
+		return line
+	}
+	return line[:i] + line[j:]
 }
 
 func shortErr(err error) string {
@@ -571,6 +727,101 @@ func runMw(c *vh.Ctx, m *vh.Model, es []mwEntry) {
 	}
 }
 
+// ------------------------------------------------------------ status-class stream
+
+// One representative per class of status code that net/http or the writer can tell apart: carries no
+// body (204, 304, 1xx — 101 is the 1xx that is a final status on a connection as well), ordinary
+// success / error, redirect. Thorough adds a second representative per class and an interim 1xx
+// (judged on the recorder only).
+func classCodes(thorough bool) []int {
+	if thorough {
+		return []int{204, 304, 101, 103, 200, 201, 404, 301, 205}
+	}
+	return []int{204, 304, 101, 200, 404}
+}
+
+// choosers: every operation that carries a status, with every class code.
+func choosers(thorough bool) []op {
+	var out []op
+	for _, code := range classCodes(thorough) {
+		out = append(out,
+			op{Kind: "status", C: code},
+			op{Kind: "writeheader", C: code},
+			op{Kind: "redirect", A: "/u", C: code},
+			op{Kind: "nocontent", C: code},
+			op{Kind: "html", A: "h", C: code})
+	}
+	return out
+}
+
+var bodyTails = [][]op{
+	{},
+	{{Kind: "write", A: "a"}},
+	{{Kind: "json", A: "[1]"}},
+	{{Kind: "html", A: "h"}},
+	{{Kind: "write", A: "a"}, {Kind: "write", A: "b"}},
+}
+
+func cat(parts ...[]op) []op {
+	var out []op
+	for _, p := range parts {
+		out = append(out, p...)
+	}
+	return out
+}
+
+// classStream: P ++ tail and [write] ++ P ++ [write] for every sequence P of 1..depth choosers
+// (depth 2; thorough: depth 3 with the single-write tail).
+func classStream(thorough bool) [][]op {
+	ch := choosers(thorough)
+	var ps [][]op
+	for _, a := range ch {
+		ps = append(ps, []op{a})
+		for _, b := range ch {
+			ps = append(ps, []op{a, b})
+		}
+	}
+	var out [][]op
+	first, last := []op{{Kind: "write", A: "a"}}, []op{{Kind: "write", A: "b"}}
+	for _, p := range ps {
+		for _, t := range bodyTails {
+			out = append(out, cat(p, t))
+		}
+		out = append(out, cat(first, p, last))
+	}
+	if thorough {
+		for _, a := range ch {
+			for _, b := range ch {
+				for _, d := range ch {
+					out = append(out, []op{a, b, d, {Kind: "write", A: "a"}})
+				}
+			}
+		}
+	}
+	return out
+}
+
+// layer-split stream: the first operation (a chooser or a header) runs in a middleware, then
+// 0..1 choosers and a tail in the handler.
+func splitPrefixes(thorough bool) []op {
+	return append(choosers(thorough), op{Kind: "header", A: "X-A", B: "1"})
+}
+
+func splitSuffixes(thorough bool) [][]op {
+	tails := [][]op{{}, {{Kind: "write", A: "a"}}}
+	if thorough {
+		tails = bodyTails
+	}
+	var out [][]op
+	for _, t := range tails {
+		out = append(out, t)
+		for _, a := range choosers(thorough) {
+			out = append(out, cat([]op{a}, t))
+		}
+	}
+	return out
+}
+
 // ------------------------------------------------------------ runner
 
 func Run(c *vh.Ctx) {
@@ -590,6 +841,7 @@ func Run(c *vh.Ctx) {
 		var rc struct {
 			Kind    string    `json:"kind"`
 			Ops     []op      `json:"ops"`
+			At      int       `json:"at"`
 			Entries []mwEntry `json:"entries"`
 		}
 		if err := json.Unmarshal(c.ReplayRaw, &rc); err != nil {
@@ -598,12 +850,14 @@ func Run(c *vh.Ctx) {
 		}
 		if rc.Kind == "mw" {
 			runMw(c, m, rc.Entries)
+		} else if rc.Kind == "split" && rc.At >= 0 && rc.At <= len(rc.Ops) {
+			runSplit(c, m, rc.Ops[:rc.At], [][]op{rc.Ops[rc.At:]})
 		} else {
 			runBatch(c, m, [][]op{rc.Ops})
 		}
 		return
 	}
-	c.Res.Rule = "response: every sequence of operation kinds up to length L over the 11-kind alphabet (parameters drawn from small pools by the seeded PRNG), plus seeded longer sequences; non-trivial = contains a committing operation and at least one status/header/cookie operation; distinct = distinct concrete op sequence. middleware: every priority stack up to length 5 over {-1,0,1,5} (+ omitted priority, short-circuit and class-based variants seeded); non-trivial = at least 2 entries"
+	c.Res.Rule = "response: every sequence of operation kinds up to length L over the 11-kind alphabet (parameters drawn from small pools by the seeded PRNG; every status-carrying kind draws from body-allowing and no-body codes), plus seeded longer sequences; status-class stream: every sequence of 1..2 (thorough: 3) status-carrying operations over {status, writeHeader, redirect, noContent, html(b, code)} x one code per status class, followed by each body tail, and the same after a first write; layer-split stream: first operation in a middleware, the rest in the handler; non-trivial = contains a committing operation and at least one status/header/cookie operation; distinct = distinct concrete op sequence. middleware: every priority stack up to length 5 over {-1,0,1,5} (+ omitted priority, short-circuit and class-based variants seeded); non-trivial = at least 2 entries"
 	maxLen := c.N(4, 5)
 	var batch [][]op
 	flush := func() {
@@ -629,8 +883,22 @@ func Run(c *vh.Ctx) {
 	}
 	rec(nil)
 	flush()
+	// status-class stream (complete, no PRNG)
+	for _, ops := range classStream(c.Thorough()) {
+		batch = append(batch, ops)
+		if len(batch) >= 400 {
+			runCases(c, m, nil, plain(batch), 1)
+			batch = batch[:0]
+		}
+	}
+	runCases(c, m, nil, plain(batch), 1)
+	batch = batch[:0]
+	// layer-split stream
+	for _, pre := range splitPrefixes(c.Thorough()) {
+		runSplit(c, m, []op{pre}, splitSuffixes(c.Thorough()))
+	}
 	c.Res.Exhaustive = true
-	c.Res.ExhaustiveWhat = fmt.Sprintf("all operation-kind sequences of length <= %d over 11 kinds; all middleware priority stacks of length <= 5 over {-1,0,1,5}", maxLen)
+	c.Res.ExhaustiveWhat = fmt.Sprintf("all operation-kind sequences of length <= %d over 11 kinds; all status-class sequences (choosers %d, depth %d) x body tails, before and after a first write; all (middleware operation, handler suffix) splits of the depth-2 status-class sequences; all middleware priority stacks of length <= 5 over {-1,0,1,5}", maxLen, len(choosers(c.Thorough())), c.N(2, 3))
 	// seeded longer sequences
 	for i := 0; i < c.N(3000, 60000); i++ {
 		n := c.Rand.Range(maxLen+1, 12)
